@@ -75,9 +75,18 @@ def gen(rng, seed, stall_secs):
     for n in p.nodes:
         if n['role'] != 'source' and rng.random() < 0.15:
             n['config']['sources_low_latency'] = True
+    if pos == 'one-of-several' and rng.random() < 0.6:
+        p.by_id['K']['config']['sources_low_latency'] = True        # a consumer that never asks ahead, next to a sibling that is faster (F22)
+        p.by_id['o0']['beh']['proc_ms'] = [0]
+        k_late = rng.random() < 0.7
+    else:
+        k_late = False
     for n in p.nodes:
         if n['id'] != 'eq':
             n['start_ms'] = rng.choice([0, 0, rng.randint(0, 200)])
+    if k_late:
+        p.by_id['K']['start_ms'] = rng.randint(150, 400)      # it joins a stream that is already flowing for its siblings
+        p.by_id['K']['beh']['stall']['after_n'] = stall_at     # ... and stalls on ITS n-th frame: a consumer that stalls during its own connection handshake is not known to the publisher yet
     link = {'max_delay_ms': rng.choice([0, 10, 50, 95]), 'conn_ms': [0, 30], 'sub_ms': [0, 20]}
     scn = scenarios.finish(p, seed, link, 40000 + stall_secs * 1000, family='stall', gauge=True, variant=variant, pos=pos, required=required, speed=speed,
                            stall_at=stall_at, stall_secs=stall_secs, chain=chain, stop_when_all_done=False)
